@@ -19,7 +19,7 @@ func init() {
 	register(&CheckDef{
 		ID:    "C07",
 		Level: "exploration",
-		Rule: "three seeded scenarios over real Stores. (1) replica matrix: a real replica following a real primary (rollback or WAL mode, connected, or with the primary gone) receives seeded sequences of every application-level mutation - whole PagerSim journal and WAL transactions of every shape, and single operations issued out of protocol at every lock state (none, SHARED, RESERVED/EXCLUSIVE attempt): database page write inside/beyond the file, database truncate and unlink, journal create/write/truncate/unlink, WAL write/truncate/unlink, POST /import. Every such operation must return an error (EACCES for page, journal and WAL writes) and the digest of position, raw image and ltx listing must be unchanged; the replica must still follow the primary afterwards. (2) authority loss: a real primary on the simulated lease service runs a PagerSim transaction; at a seeded SQLite file-operation boundary it is demoted or its lease session is expired and the harness waits until the node reports it is no longer primary; the transaction continues. If authority was lost before the commit step began nothing may be published (position and ltx listing unchanged) and after LiteFS's own recovery the raw database equals the last committed image. (3) the multi-node fault simulation with a publication monitor on every node: a local commit file (COMMITJOURNAL/COMMITWAL/DROP/IMPORT) must not be renamed into the log during a SQLite operation that started when the node had no write authority. evaluations = operations issued on non-writable nodes + transactions cut by a loss; distinct = distinct (scenario, mode, lock state, operation, errno) tuples; non-trivial = run with >= 1 refused mutation or >= 1 loss inside a transaction",
+		Rule:  "three seeded scenarios over real Stores. (1) replica matrix: a real replica following a real primary (rollback or WAL mode, connected, or with the primary gone) receives seeded sequences of every application-level mutation - whole PagerSim journal and WAL transactions of every shape, and single operations issued out of protocol at every lock state (none, SHARED, RESERVED/EXCLUSIVE attempt): database page write inside/beyond the file, database truncate and unlink, journal create/write/truncate/unlink, WAL write/truncate/unlink, POST /import. Every such operation must return an error (EACCES for page, journal and WAL writes) and the digest of position, raw image and ltx listing must be unchanged; the replica must still follow the primary afterwards. (2) authority loss: a real primary on the simulated lease service runs a PagerSim transaction; at a seeded SQLite file-operation boundary it is demoted or its lease session is expired and the harness waits until the node reports it is no longer primary; the transaction continues. If authority was lost before the commit step began nothing may be published (position and ltx listing unchanged) and after LiteFS's own recovery the raw database equals the last committed image. (3) the multi-node fault simulation with a publication monitor on every node: a local commit file (COMMITJOURNAL/COMMITWAL/DROP/IMPORT) must not be renamed into the log during a SQLite operation that started when the node had no write authority. evaluations = operations issued on non-writable nodes + transactions cut by a loss; distinct = distinct (scenario, mode, lock state, operation, errno) tuples; non-trivial = run with >= 1 refused mutation or >= 1 loss inside a transaction",
 		Run:   runC07,
 		NonTrivial: func(r *Run) bool {
 			return r.Stats["c07.refused"]+r.Stats["c07.loss.in-tx"]+r.Stats["c07.monitor.commit-ok"] > 0
